@@ -140,6 +140,8 @@ def analyse_pass1(res, tags, meta):
         if msg.startswith('aborting due to'):
             continue
         kind = classify(msg)
+        if d.get('code'):
+            kind = 'rustc'          # a compiler diagnostic (E0xxx), never a verification verdict
         spans = d.get('spans', [])
         if kind != 'vf' or not spans:
             mach.append({'message': msg, 'rendered': d.get('rendered', '')[:2000], 'kind': kind})
@@ -151,7 +153,7 @@ def analyse_pass1(res, tags, meta):
             t = tags[ln - 1] if 0 < ln <= len(tags) else None
             stags.append((s, t or {'kind': 'unknown'}))
         clause_t = next((t for s, t in stags if t.get('clause')), None)
-        body_t = next((t for s, t in stags if t.get('kind') in ('body', 'proof', 'sig')), None)
+        body_t = next((t for s, t in stags if t.get('kind') in ('body', 'sig')), None) or next((t for s, t in stags if t.get('kind') == 'proof'), None)
         prelude_only = all(t.get('kind') in ('prelude', 'unknown', 'item', 'kw') for s, t in stags)
         rendered = d.get('rendered', '')
         if prelude_only:
@@ -176,7 +178,7 @@ def analyse_pass1(res, tags, meta):
             else:
                 f['obligation'] = '%s.safety' % caller
                 f['props'] = None
-        elif clause_t is not None and clause_t.get('kind') in ('ensures', 'invariant', 'decreases', 'loop-ensures', 'fn-decreases', 'lemma'):
+        elif clause_t is not None and clause_t.get('kind') in ('ensures', 'invariant', 'decreases', 'loop-ensures', 'fn-decreases', 'lemma', 'proof'):
             f['fn'] = clause_t['fn']
             f['obligation'] = clause_t['clause']
             f['props'] = clause_t.get('props', [])
@@ -232,7 +234,7 @@ def analyse_probe(res, tags, meta):
         msg = d.get('message', '')
         if msg.startswith('aborting due to'):
             continue
-        if classify(msg) == 'undecided' or classify(msg) == 'other':
+        if d.get('code') or classify(msg) == 'undecided' or classify(msg) == 'other':
             mach.append({'message': msg, 'rendered': d.get('rendered', '')[:1500], 'kind': 'probe'})
             continue
         for s in d.get('spans', []):
@@ -260,6 +262,11 @@ def analyse_probe(res, tags, meta):
             if d.get('level') == 'error' and any(a <= s['line_start'] <= b for s in d.get('spans', [])) and classify(d.get('message', '')) == 'vf':
                 failed.add(nm)
     vac = sorted(set(probes.values()) - failed)
+    if not res['json'].get('verification-results') or res['json'].get('verification-results', {}).get('encountered-vir-error'):
+        if not mach:
+            mach.append({'message': 'vacuity pass did not reach the SMT stage', 'rendered': res['stderr'][-2000:], 'kind': 'probe'})
+    if mach:
+        vac = []
     return len(set(probes.values())), vac, mach
 
 
